@@ -67,6 +67,7 @@ struct DaemonSim {
     panicked: bool,
     hold_exit: bool,
     in_exit_window: bool,
+    drain_begun_at: Option<std::time::Instant>,
     drained_at: Option<std::time::Instant>,
     dead_at: Option<std::time::Instant>,
 }
@@ -283,6 +284,12 @@ impl World {
         (g.daemons[d].drained_at, g.daemons[d].dead_at)
     }
 
+    /// Real-time instant just before daemon `d` began to drain its queue
+    /// after Exit: a command queued before it is certainly taken out.
+    pub fn exit_drain_begun(&self, d: usize) -> Option<std::time::Instant> {
+        self.lock().daemons[d].drain_begun_at
+    }
+
     /// Asks daemon `d` to stop in its exit window (see `Parked::InExitWindow`).
     pub fn hold_exit(&self, d: usize, on: bool) {
         let mut g = self.lock();
@@ -376,6 +383,19 @@ pub(crate) fn adopt_world(signal_addr: SocketAddr) -> DaemonGuard {
             DaemonGuard(Some((w, id)))
         }
         None => DaemonGuard(None),
+    }
+}
+
+/// Called by the run loop after Exit was processed, before the queue is drained.
+pub(crate) fn exit_drain_begins() {
+    let t = std::time::Instant::now();
+    if let Some(Binding {
+        world,
+        daemon: Some(d),
+        ..
+    }) = current()
+    {
+        world.lock().daemons[d].drain_begun_at = Some(t);
     }
 }
 
@@ -936,6 +956,104 @@ impl CacheFacade {
         let mut av: Vec<String> = a.into_keys().collect();
         av.sort();
         (sv, av)
+    }
+
+    /// The interface the following records are received on.
+    pub fn set_intf(&mut self, if_name: &str, if_index: u32) {
+        self.intf.name = if_name.to_string();
+        self.intf.index = if_index;
+    }
+
+    /// Decodes `packet` as received on the current interface and stores every
+    /// record of it the way `handle_response` does; one result per record.
+    pub fn feed(&mut self, packet: Vec<u8>, is_for_us: bool) -> crate::Result<Vec<(Option<bool>, Vec<u64>)>> {
+        let msg = DnsIncoming::new(packet, (&self.intf).into())?;
+        Ok(msg
+            .all_records()
+            .map(|rec| self.add_or_update(rec, is_for_us))
+            .collect())
+    }
+
+    /// Every stored record: (map, key, record, index of the source interface).
+    pub fn dump(&self) -> Vec<(&'static str, String, RecordView, u32)> {
+        let mut out = Vec::new();
+        let maps: [(&'static str, &HashMap<String, Vec<crate::dns_cache::DnsRecordIntf>>); 5] = [
+            ("ptr", self.cache.all_ptr()),
+            ("srv", self.cache.all_srv()),
+            ("txt", self.cache.all_txt()),
+            ("addr", self.cache.all_addr()),
+            ("nsec", self.cache.all_nsec()),
+        ];
+        for (m, map) in maps {
+            for (k, v) in map.iter() {
+                for r in v {
+                    out.push((m, k.clone(), record_view(r.record.as_ref()), r.src_intf.index));
+                }
+            }
+        }
+        out
+    }
+
+    /// Number of keys (names) in each map, whether or not records are left under them.
+    pub fn key_counts(&self) -> (usize, usize, usize, usize, usize, usize) {
+        (
+            self.cache.all_ptr().len(),
+            self.cache.all_srv().len(),
+            self.cache.all_txt().len(),
+            self.cache.all_addr().len(),
+            self.cache.all_nsec().len(),
+            self.cache.subtype_count(),
+        )
+    }
+
+    pub fn verify(&mut self, instance: &str, expire_at: Option<u64>) -> Vec<(String, u16)> {
+        self.cache
+            .service_verify_queries(instance, expire_at)
+            .into_iter()
+            .map(|(n, t)| (n, t as u16))
+            .collect()
+    }
+
+    pub fn refresh_ptr(&mut self, ty_domain: &str) -> Vec<u64> {
+        let mut v: Vec<u64> = self.cache.refresh_due_ptr(ty_domain).into_iter().collect();
+        v.sort();
+        v
+    }
+
+    pub fn refresh_srv_txt(&mut self, ty_domain: &str) -> (Vec<(String, Vec<u16>)>, Vec<u64>) {
+        let (due, timers) = self.cache.refresh_due_srv_txt(ty_domain);
+        let mut d: Vec<(String, Vec<u16>)> = due
+            .into_iter()
+            .map(|(k, v)| (k, v.into_iter().map(|t| t as u16).collect()))
+            .collect();
+        d.sort();
+        let mut t: Vec<u64> = timers.into_iter().collect();
+        t.sort();
+        (d, t)
+    }
+
+    pub fn refresh_hosts(&mut self, ty_domain: &str) -> (Vec<String>, Vec<u64>) {
+        let (due, timers) = self.cache.refresh_due_hosts(ty_domain);
+        let mut d: Vec<String> = due.into_iter().collect();
+        d.sort();
+        let mut t: Vec<u64> = timers.into_iter().collect();
+        t.sort();
+        (d, t)
+    }
+
+    pub fn refresh_hostname(&mut self, hostname: &str) -> Vec<(String, String)> {
+        let mut v: Vec<(String, String)> = self
+            .cache
+            .refresh_due_hostname_resolutions(hostname)
+            .into_iter()
+            .map(|(h, ip)| (h, ip.to_ip_addr().to_string()))
+            .collect();
+        v.sort();
+        v
+    }
+
+    pub fn remove_type(&mut self, ty_domain: &str) {
+        self.cache.remove_service_type(ty_domain);
     }
 
     pub fn counts(&self) -> (usize, usize, usize, usize, usize) {
